@@ -344,6 +344,15 @@ pub fn record_c14(rng: &mut Rng, count: u64, out: &mut Out) {
     let n = 1u32 << depth;
     let c = if rng.below(3) != 0 { special_cells(rng, depth) } else { Cell { b: rng.below(12) as u8, i: rng.below(n as u64) as u32, j: rng.below(n as u64) as u32 } };
     out.emit(edges_event(depth, c, dd));
+    // large delta_depth (6 .. 20): counted as a whole and sampled
+    if k % 40 == 7 {
+      // (the debug profile is ~30 times slower on these: up to 2^14 cells per side there, 2^20 in release)
+      let ddb = 6 + rng.below(if cfg!(debug_assertions) { 9 } else { 15 }) as u8;
+      let db = if rng.bool() { 29 - ddb } else { rng.below(30 - ddb as u64) as u8 };
+      let nb = 1u32 << db;
+      let cb = if rng.bool() { special_cells(rng, db) } else { Cell { b: rng.below(12) as u8, i: rng.below(nb as u64) as u32, j: rng.below(nb as u64) as u32 } };
+      out.emit(edges_big_event(rng, db, cb, ddb));
+    }
     if k % 6 == 5 { let (d2, c2) = same_number_other_depth(rng, depth, hash_of_cell(depth, c)); if d2 + dd <= 29 { out.emit(edges_event(d2, c2, dd)); } }
   }
 }
@@ -585,4 +594,73 @@ pub fn replay_c19(line: &Value, out: &mut Out, _stats: &mut ReplayStats) {
     out.emit(bilinear_event(depth, lon, lat, "generated"));
     if *fa == 0.5 && *fc == 0.5 { let ctr = nested::get_or_create(depth).center(hash_of_cell(depth, c)); out.emit(bilinear_event(depth, ctr.0, ctr.1, "centre")); }
   }
+}
+
+/// C14 at large delta_depth: the lists (up to 4 * 2^20 cells) are checked as a whole by counting (length, duplicates, adjacency of
+/// consecutive cells of the walk, sorted variant = sorted list) and sampled for TLC (positions around the side changes, around
+/// the powers of two - where a carry of the interleaved coordinates propagates - and random ones).
+pub fn edges_big_event(rng: &mut Rng, depth: u8, c: Cell, dd: u8) -> Value {
+  use cdshealpix::nested::Layer;
+  let h = hash_of_cell(depth, c);
+  let deep = depth + dd;
+  let m = 1u64 << dd;
+  let layer = nested::get_or_create(depth);
+  let mut p = 0;
+  let ie = guarded(|| Layer::internal_edge(h, dd)).map(|v| v.to_vec()).unwrap_or_else(|| { p += 1; vec![] });
+  let ies = guarded(|| Layer::internal_edge_sorted(h, dd)).map(|v| v.to_vec()).unwrap_or_else(|| { p += 1; vec![] });
+  let ee = guarded(|| layer.external_edge(h, dd)).map(|v| v.to_vec()).unwrap_or_else(|| { p += 1; vec![] });
+  let ees = guarded(|| layer.external_edge_sorted(h, dd)).map(|v| v.to_vec()).unwrap_or_else(|| { p += 1; vec![] });
+  let f_ie = guarded(|| nested::internal_edge(depth, h, dd));
+  let f_ee = guarded(|| nested::external_edge_sorted(depth, h, dd));
+  let free = f_ie.map_or(false, |v| v.to_vec() == ie) && f_ee.map_or(false, |v| v.to_vec() == ees);
+  let nh = n_hash(deep);
+  let dups = |v: &Vec<u64>| { let mut s = v.clone(); s.sort_unstable(); (s.windows(2).filter(|w| w[0] == w[1]).count() + s.iter().filter(|x| **x >= nh).count(), s) };
+  let (ie_dup, ie_sorted) = dups(&ie);
+  let (ee_dup, ee_sorted) = dups(&ee);
+  // consecutive cells of the (closed) walk share an edge: same base cell, |di| + |dj| = 1
+  let mut nonadj = 0;
+  if ie.iter().all(|x| *x < nh) {
+    for k in 0..ie.len() {
+      let (a, b) = (cell_of_hash(deep, ie[k]), cell_of_hash(deep, ie[(k + 1) % ie.len()]));
+      let d = (a.i as i64 - b.i as i64).abs() + (a.j as i64 - b.j as i64).abs();
+      if a.b != b.b || (d != 1 && ie.len() > 1) { nonadj += 1; }
+    }
+  } else { nonadj = 1; }
+  // sampled positions (1-based) of the walk
+  let l = ie.len() as u64;
+  let mut idx: Vec<u64> = vec![1, 2, 3, l, l.saturating_sub(1)];
+  for q in 1..4u64 { for d in 0..5u64 { idx.push((q * (m - 1) + d).saturating_sub(2)); } }
+  for k in 3..=(dd as u64 + 2) { for d in 0..3u64 { idx.push((1u64 << k) + d - 1); idx.push(3 * (m - 1) + (1u64 << k) + d - 1); idx.push((m - 1) + (1u64 << k) + d - 1); } }
+  for _ in 0..24 { idx.push(1 + rng.below(l.max(1))); }
+  idx.retain(|k| *k >= 1 && *k <= l);
+  idx.sort_unstable(); idx.dedup();
+  let ie_s: Vec<Value> = idx.iter().map(|k| json!([k, cell_json(deep, ie[(*k - 1) as usize])])).collect();
+  let mut side_len = serde_json::Map::new();
+  let mut side_s = serde_json::Map::new();
+  let mut corner = serde_json::Map::new();
+  let mut icorner = serde_json::Map::new();
+  let st = guarded(|| layer.external_edge_struct(h, dd));
+  if st.is_none() { p += 1; }
+  for o in ORDS.iter() {
+    let e: Vec<u64> = st.as_ref().map_or(vec![], |s| s.get_edge(&ordi(o)).to_vec());
+    side_len.insert(o.to_string(), json!(e.len()));
+    let mut ks: Vec<usize> = vec![0, 1, e.len() / 2, e.len().saturating_sub(2), e.len().saturating_sub(1)];
+    for k in 3..=(dd as usize) { ks.push((1usize << k) - 1); ks.push(1usize << k); }
+    for _ in 0..8 { ks.push(rng.below(e.len().max(1) as u64) as usize); }
+    ks.retain(|k| *k < e.len()); ks.sort_unstable(); ks.dedup();
+    side_s.insert(o.to_string(), Value::Array(ks.iter().map(|k| cell_json(deep, e[*k])).collect()));
+  }
+  for d in CARDS.iter() {
+    corner.insert(d.to_string(), st.as_ref().and_then(|s| s.get_corner(&card(d))).map_or(json!([]), |x| cell_json(deep, x)));
+    match guarded(|| nested::internal_corner(h, dd, &card(d))) { Some(x) => { icorner.insert(d.to_string(), cell_json(deep, x)); }, None => { p += 1; icorner.insert(d.to_string(), json!([])); } }
+  }
+  // the flat external edge is the union of the sides and corners of the structured one
+  let mut all: Vec<u64> = Vec::new();
+  if let Some(s) = &st { for o in ORDS.iter() { all.extend_from_slice(s.get_edge(&ordi(o))); } for d in CARDS.iter() { if let Some(x) = s.get_corner(&card(d)) { all.push(x); } } }
+  all.sort_unstable();
+  let free = free && all == ee_sorted;
+  json!({"ev": "edges_big", "d": depth, "dd": dd, "c": c.json(), "p": p, "free": free as u8,
+         "ie_len": ie.len(), "ie_dup": ie_dup, "ie_nonadj": nonadj, "ie_s": ie_s, "ies_ok": (ies == ie_sorted) as u8,
+         "ee_len": ee.len(), "ee_dup": ee_dup, "ees_ok": (ees == ee_sorted) as u8,
+         "side_len": side_len, "side_s": side_s, "corner": corner, "icorner": icorner})
 }
